@@ -351,7 +351,7 @@ class LayoutTyper(Structured):
         v = self.ev(ax, env, quiet=True)
         return v
 
-    def reduce(self, node, arr, axis_expr, env, rep):
+    def reduce(self, node, arr, axis_expr, env, rep, keepdims=False):
         if axis_expr is None or (isinstance(axis_expr, ast.Constant) and axis_expr.value is None):
             return SCALAR
         av = self.axis_value(axis_expr, env)
@@ -359,6 +359,9 @@ class LayoutTyper(Structured):
             ok = av.a == arr.a
             rep('axis-by-name', node, ok,
                 'axes looked up on %s for an operand laid out by %s' % (show(av.a), show(arr.a)))
+            if ok and keepdims:
+                # reduced axes are kept with length 1: broadcasts against the operand, same layout
+                return V('arr', arr.a, deps=arr.deps, flags={'kept:' + repr(av.b)})
             if ok:
                 return V('arr', ('marginalize', arr.a, av.b), deps=arr.deps)
             return V('arr', ('positional', 'foreign axes'), deps=arr.deps)
@@ -407,6 +410,10 @@ class LayoutTyper(Structured):
             if inner.kind in ('axes', 'attrs', 'slices', 'seq'):
                 return inner
             return V('seq')
+        if kind == 'fn' and name in ('logsumexp', 'amax', 'amin') and e.args and 'axis' in kw:
+            arr = self.ev(e.args[0], env, quiet)
+            if arr.kind == 'arr':
+                return self.reduce(e, arr, kw.get('axis'), env, rep, self.truthy(kw.get('keepdims')))
         if kind == 'fn' and name in ('len', 'int', 'float', 'range', 'abs', 'min', 'max', 'sum'):
             return SCALAR if name != 'range' else V('seq')
         # ---- numpy vocabulary -----------------------------------------------------
@@ -427,7 +434,10 @@ class LayoutTyper(Structured):
                 if arr.kind != 'arr':
                     return SCALAR if arr.kind == 'scalar' else UNK
                 ax = kw.get('axis', e.args[1] if len(e.args) > 1 else None)
-                return self.reduce(e, arr, ax, env, rep)
+                return self.reduce(e, arr, ax, env, rep, self.truthy(kw.get('keepdims')))
+            if name == 'squeeze' and e.args:
+                arr = self.ev(e.args[0], env, quiet)
+                return self.squeeze(e, arr, kw.get('axis', e.args[1] if len(e.args) > 1 else None), env, rep)
             if name == 'moveaxis' and len(e.args) == 3:
                 return self.moveaxis(e, env, quiet, rep)
             if name == 'transpose' and e.args:
@@ -466,7 +476,9 @@ class LayoutTyper(Structured):
             if recv.kind == 'arr':
                 if name in REDUCERS:
                     ax = kw.get('axis', e.args[0] if e.args else None)
-                    return self.reduce(e, recv, ax, env, rep)
+                    return self.reduce(e, recv, ax, env, rep, self.truthy(kw.get('keepdims')))
+                if name == 'squeeze':
+                    return self.squeeze(e, recv, kw.get('axis', e.args[0] if e.args else None), env, rep)
                 if name in ('copy', 'astype', 'flatten', 'ravel', 'clip'):
                     return recv
                 if name == 'reshape' and len(e.args) == 1:
@@ -518,6 +530,22 @@ class LayoutTyper(Structured):
                         return V('fac', D)
             return UNK
         return UNK
+
+    @staticmethod
+    def truthy(e):
+        return isinstance(e, ast.Constant) and bool(e.value)
+
+    def squeeze(self, node, arr, axis_expr, env, rep):
+        if arr.kind != 'arr':
+            return UNK
+        kept = [f for f in arr.flags if f.startswith('kept:')]
+        if axis_expr is None or not kept:
+            return V('arr', ('positional', 'squeeze'), deps=arr.deps)
+        av = self.axis_value(axis_expr, env)
+        if av.kind == 'axes' and av.a == arr.a and 'kept:' + repr(av.b) in arr.flags:
+            return V('arr', ('marginalize', arr.a, av.b), deps=arr.deps)
+        rep('axis-by-name', node, False, 'squeeze axes `%s` are not the kept, name-derived axes of the operand' % U(axis_expr))
+        return V('arr', ('positional', 'squeeze'), deps=arr.deps)
 
     def reshape(self, node, arr, shape, env):
         # V.reshape(D.shape + tuple([1]*k))  |  + (1,)*k
